@@ -79,10 +79,22 @@ def noNameHead : Str → Bool
   | c :: _ => !isNameChar c
 
 def litOkTop (s : Str) : Bool := s.all (· != '$')
-def litOkArg (s : Str) : Bool := s.all (fun c => c != '$' && c != '{' && c != '}' && c != '\n')
+
+/-- braces are balanced: the depth (starting from `d`) never goes below zero and ends at zero -/
+def braceBal : Str → Nat → Bool
+  | [], d => d == 0
+  | '{' :: cs, d => braceBal cs (d + 1)
+  | '}' :: cs, d => d != 0 && braceBal cs (d - 1)
+  | _ :: cs, d => braceBal cs d
+
+/-- a literal inside an operator argument: no `$`, no newline (the regex's `.` does not cross lines),
+    and its own braces balanced (an unbalanced `}` would close the substitution) -/
+def litOkArg (s : Str) : Bool := s.all (fun c => c != '$' && c != '\n') && braceBal s 0
+/-- the same without the newline restriction (used to state what the implementation does *not* satisfy) -/
+def litOkArgML (s : Str) : Bool := s.all (fun c => c != '$') && braceBal s 0
 
 mutual
-/-- `inArg`: inside an operator argument literals may not contain braces or newlines -/
+/-- `inArg`: inside an operator argument literals may not contain newlines or unbalanced braces -/
 def Seg.wf (inArg : Bool) : Seg → Bool
   | .lit s => if inArg then litOkArg s else litOkTop s
   | .esc => true
@@ -98,5 +110,45 @@ def wfL (inArg : Bool) : List Seg → Bool
 end
 
 def WF (t : List Seg) : Bool := wfL false t
+
+/-! The grammar at full strength also allows a newline inside an operator argument (`WFml`).
+    The implementation does not support that (`Neg/C07.lean`); `WF` is the provable restriction. -/
+mutual
+def Seg.wfML (inArg : Bool) : Seg → Bool
+  | .lit s => if inArg then litOkArgML s else litOkTop s
+  | .esc => true
+  | .var n _ => validName n
+  | .op n _ arg => validName n && wfLML true arg
+def wfLML (inArg : Bool) : List Seg → Bool
+  | [] => true
+  | s :: r => s.wfML inArg && wfLML inArg r &&
+      (match s with
+       | .var _ false => noNameHead (renderL r)
+       | _ => true)
+end
+
+def WFml (t : List Seg) : Bool := wfLML false t
+
+end CV.Template
+
+namespace CV.Template
+
+/-! ## Auxiliary notions used by the statements of `Props/C07` -/
+
+/-- `$` ↦ `$$` (what `interpolation`/`C08` use to protect literal text) -/
+def escapeDollars : Str → Str
+  | [] => []
+  | c :: cs => if c = '$' then '$' :: '$' :: escapeDollars cs else c :: escapeDollars cs
+
+/-- there is a `}` before the first newline -/
+def closesOnLine (s : Str) : Prop := ∃ c ∈ s.takeWhile (· != '\n'), c = '}'
+
+/-- the text after `${` is `NAME}`… or `NAME op … }` with the `}` on the same line -/
+def WellFormedBrace (r : Str) : Prop :=
+  ∃ n tail, r = n ++ tail ∧ validName n = true ∧ noNameHead tail = true ∧
+    (tail.head? = some '}' ∨ ∃ (o : Op) (r3 : Str), tail = o.str ++ r3 ∧ closesOnLine r3)
+
+/-- a `$` that starts nothing: not followed by `$`, `{` or a name-start character -/
+def loneAfter (X : Str) : Prop := ∀ c, X.head? = some c → c ≠ '$' ∧ c ≠ '{' ∧ isNameStart c = false
 
 end CV.Template
